@@ -138,6 +138,7 @@ class World:
         self.blocks = [bytes(self.arr.bs)]
         self.hids = {}
         self.hash_known = {}
+        self.pairs = set()
         self.log = []
         self.t = 1700000000 + rng.randint(0, 1000) * 7
         os.makedirs(os.path.join(self.arr.root, 'import'), exist_ok=True)
@@ -509,12 +510,10 @@ class World:
                         continue
                     data = open(q, 'rb').read()
                     ids = [self.bid(data[k:k + bs]) for k in range(0, len(data), bs)]
-                    if self.murmur and self.seed:
+                    if self.murmur:
                         for k in range(0, len(data), bs):
                             blk = data[k:k + bs]
-                            key = (self.bid(blk), len(blk))
-                            if key not in self.hash_known:
-                                self.hash_known[key] = self.hval(self.block_hash(blk))
+                            self.pairs.add((self.bid(blk), len(blk)))
                     files.append([str(self.names.id(os.path.relpath(q, base))), str(len(data)), str(st.st_mtime_ns // 10**9), str(st.st_mtime_ns % 10**9),
                                   str(st.st_ino), str(len(ids))] + list(map(str, ids)))
             toks += ['X', str(len(files))]
@@ -539,6 +538,10 @@ class World:
                         self.hash_known[(self.bid(blk), len(blk))] = self.hval(h)
 
     def ser_hashes(self):
+        if self.murmur and self.seed:       # the seed is known once a content file exists: hash every block met so far
+            for (b, l) in self.pairs:
+                if (b, l) not in self.hash_known:
+                    self.hash_known[(b, l)] = self.hval(self.block_hash(self.blocks[b][:l]))
         toks = ['H', str(len(self.hash_known))]
         for (b, l), h in sorted(self.hash_known.items()):
             toks += [str(b), str(l), h]
